@@ -293,7 +293,7 @@ static void make_invalid(chist *h, cop *o, vh_rng *r)
         case 1: o->len = 0; o->cls = "key-len-0"; break;
         case 2: o->len = mink - 1 - vh_below(r, 3); o->cls = "key-too-short"; break;
         case 3: o->len = maxk + 1 + vh_below(r, 3); o->cls = "key-too-long"; break;
-        case 4: o->len = big[vh_below(r, 5)]; o->cls = "key-len-huge"; break;
+        case 4: o->len = vh_below(r, 2) ? big[vh_below(r, 5)] : vh_wrap_len(r, c->key_min, c->key_max); o->cls = "key-len-huge"; break;
         case 5: o->len = 16; o->rounds = vh_below(r, 5); o->cls = "mantis-rounds-low"; break;
         default: o->len = 16; o->rounds = vh_below(r, 2) ? 9 + vh_below(r, 4) : big[vh_below(r, 5)]; o->cls = "mantis-rounds-high"; break;
         }
@@ -305,13 +305,13 @@ static void make_invalid(chist *h, cop *o, vh_rng *r)
         } else switch (vh_below(r, 3)) {
             case 0: o->len = 0; o->cls = "tweak-len-0"; break;
             case 1: o->len = c->bb + 1 + vh_below(r, 3); o->cls = "tweak-too-long"; break;
-            default: o->len = big[vh_below(r, 5)]; o->cls = "tweak-len-huge"; break;
+            default: o->len = vh_below(r, 2) ? big[vh_below(r, 5)] : vh_wrap_len(r, 1, c->bb); o->cls = "tweak-len-huge"; break;
         }
         if (!vh_below(r, 4)) o->flags |= F_NULL_PTR;
         break;
     case C_SET_COUNTER:
         if (vh_below(r, 2)) { o->len = c->bb + 1 + vh_below(r, 3); o->cls = "counter-too-long"; }
-        else { o->len = big[vh_below(r, 5)]; o->cls = "counter-len-huge"; }
+        else { o->len = vh_below(r, 2) ? big[vh_below(r, 5)] : vh_wrap_len(r, 0, c->bb); o->cls = "counter-len-huge"; }
         if (!vh_below(r, 4)) o->flags |= F_NULL_PTR;
         break;
     case C_ENCRYPT:
